@@ -41,3 +41,8 @@ add("C13", "exploration", "header-hygiene predicate at the server boundary (also
     "mutation path of the header mapping (as value and as name), used as cookie name, cookie value and redirect target, and the responses are emitted through both server emulators; "
     "every emitted header pair is checked for CR/LF/NUL, Set-Cookie lines are split by an independent reader and compared with the attribute set asked for, Location must be visible ASCII.",
     "Constructor-supplied headers and cookie path/domain are outside the quantifier; values above U+00FF may be un-emittable (tolerated).")
+add("C16", "exploration", "identity round trip through the real response and request sides of both interfaces + independent date parser with a before/after clock bracket under tzset-switched process time zones",
+    "Cookies are set on real responses, emitted through both server emulators, their name=value pairs echoed in Cookie headers (alone / among others, random order and OWS) and read back "
+    "through the real Request.cookies of both interfaces; exhaustive over all 256 code points in 5 positions and all pairs of 13 special characters, plus random Latin-1 values. Expires is "
+    "parsed independently and must lie in [floor(t0+s), floor(t1+s)] under 7 process time zones; Max-Age and delete semantics are checked.",
+    "Client echoes the pair exactly as emitted; wall clock used only as a containment bracket.")
